@@ -972,6 +972,46 @@ func (e *Engine) Run(prop string, ch *kernel.Chooser, st *kernel.Stats) kernel.R
 				name = oddNames[ch.Choose(len(oddNames))]
 				st.Inc("probe.keyword_or_non_identifier_name_registered")
 			}
+			if ch.Bool(1, 5) {
+				// a near-variant of a name registered earlier on this pair (other case, extra blank, prefix, doubled):
+				// a different name, so a different id
+				var earlier []string
+				for _, o := range p.acc {
+					if o.Kind == "tok" && o.Name != "" {
+						earlier = append(earlier, o.Name)
+					}
+				}
+				if len(earlier) > 0 {
+					base := earlier[ch.Choose(len(earlier))]
+					switch ch.Choose(7) {
+					case 0:
+						name = strings.ToUpper(base)
+					case 1:
+						name = strings.ToLower(base)
+					case 2:
+						name = strings.ToUpper(base[:1]) + base[1:]
+					case 3:
+						name = base + " "
+					case 4:
+						name = " " + base
+					case 5:
+						name = base[:len(base)-1]
+					case 6:
+						name = base + base
+					}
+					isWord := false
+					for _, w := range wordPool {
+						isWord = isWord || w == name
+					}
+					if isWord {
+						// the variant is itself an operator word: registered as one (it may get a role later)
+						odd = false
+					} else {
+						odd = true
+						st.Inc("probe.near_variant_of_an_earlier_name_registered")
+					}
+				}
+			}
 			op := regOp{Kind: "tok", Name: name, Pair: pi}
 			id, _ := p.applyReal(op)
 			_, seen := p.model.ids[name]
@@ -1138,7 +1178,11 @@ func (e *Engine) Run(prop string, ch *kernel.Chooser, st *kernel.Stats) kernel.R
 		for _, op := range p.acc {
 			id, refused := twin.applyReal(op)
 			if op.Kind == "tok" {
-				twin.words[op.Name] = id
+				for _, w := range wordPool {
+					if w == op.Name {
+						twin.words[op.Name] = id // only operator words are lexed as their token type, as on the pair itself
+					}
+				}
 				if int(id) != op.Type {
 					add("token-id", "token-id|twin", fmt.Sprintf("pair %d: replaying the accepted registrations on a fresh builder gives %q id %d instead of %d", pi, op.Name, id, op.Type))
 				}
